@@ -507,7 +507,7 @@ impl Property for C03 {
         vec![("direct", 3), ("wire", 1)]
     }
     fn budget(&self) -> (u64, u64) {
-        (40_000, 1_500_000)
+        (300_000, 6_000_000)
     }
     fn rule(&self) -> &'static str {
         "1-2 writer sessions (1-6 ops of {set,set-safe accepted/refused,increment,remove} on keys a,b and counter n, every written value unique) and 1-2 subscriber sessions (1-6 ops of {watch,unwatch,unwatch-all,disconnect,pause}, never watching one key twice) as concurrent tasks on a node booted by start_db; direct = process_request sessions (every lock a preemption point), wire = subscribers over the real TCP handler incl. its disconnect path. invoke/return stamped with a global sequence number. Non-trivial: some accepted write ran entirely inside a subscription. distinct = distinct (program, task-switch sequence)."
